@@ -36,14 +36,144 @@ package reflection
 //@   modifies ConstructorInvoker.*, ParamObjectBuilder.*, map[uintptr]*ConstructorInvoker, alloc
 //@   ensures[C15] nonnil: result != nil
 //
-//@ func ConstructorInvoker.Invoke
-//@   mode conc
-//@   interferes
-//@   nopanic
-//@   requires args: ci != nil && info != nil
-//
 //@ func ResultObjectProcessor.ProcessResultObject
 //@   safety off
 //@   nopanic
 //@   modifies alloc
 //@   ensures regs_ok: result1 != nil ==> isnil(result0)
+//
+//@ field ParameterInfo.Type immutable
+//@ field ParameterInfo.Key immutable
+//@ field ParameterInfo.Group immutable
+//@ field ParameterInfo.ElemType immutable
+//@ field ParameterInfo.Index immutable
+//@ field ConstructorInfo.Parameters immutable
+//@ field ConstructorInfo.IsParamObject immutable
+//@ field ConstructorInfo.IsFunc immutable
+//@ field ConstructorInfo.Value immutable
+//@ field ConstructorInfo.Type immutable
+//@ field ConstructorInfo.HasErrorReturn immutable
+//@ field ConstructorInfo.InstanceValue immutable
+//@ field ConstructorInvoker.paramBuilder immutable
+//
+// ---------------------------------------------------------------------------------------------
+// Argument resolution (C03: one resolver call per injection site; C04: the right lookup for the declared identity).
+//@ func ConstructorInvoker.resolveParameter
+//@   mode conc
+//@   interferes
+//@   nopanic
+//@   safety[C15]
+//@   requires args: param != nil && resolver != nil
+//@   ensures[C04,C03] group_parameter_uses_group_lookup: param.Group != "" ==> ncalls("DependencyResolver.GetGroup") == 1 && ncalls("DependencyResolver.Get") == 0 && ncalls("DependencyResolver.GetKeyed") == 0
+//@        && callarg("DependencyResolver.GetGroup", 0, 0) == resolver && callarg("DependencyResolver.GetGroup", 0, 1) == param.ElemType && callarg("DependencyResolver.GetGroup", 0, 2) == param.Group
+//@   ensures[C04,C03] keyed_parameter_uses_keyed_lookup: param.Group == "" && param.Key != nil ==> ncalls("DependencyResolver.GetKeyed") == 1 && ncalls("DependencyResolver.Get") == 0 && ncalls("DependencyResolver.GetGroup") == 0
+//@        && callarg("DependencyResolver.GetKeyed", 0, 0) == resolver && callarg("DependencyResolver.GetKeyed", 0, 1) == param.Type && callarg("DependencyResolver.GetKeyed", 0, 2) == param.Key
+//@        && result0 == callret("DependencyResolver.GetKeyed", 0, 0) && result1 == callret("DependencyResolver.GetKeyed", 0, 1)
+//@   ensures[C04,C03] plain_parameter_uses_type_lookup: param.Group == "" && param.Key == nil ==> ncalls("DependencyResolver.Get") == 1 && ncalls("DependencyResolver.GetKeyed") == 0 && ncalls("DependencyResolver.GetGroup") == 0
+//@        && callarg("DependencyResolver.Get", 0, 0) == resolver && callarg("DependencyResolver.Get", 0, 1) == param.Type
+//@        && result0 == callret("DependencyResolver.Get", 0, 0) && result1 == callret("DependencyResolver.Get", 0, 1)
+//@   ensures[C15] group_failure_passed_through: param.Group != "" && callret("DependencyResolver.GetGroup", 0, 1) != nil ==> result0 == nil && result1 == callret("DependencyResolver.GetGroup", 0, 1)
+//
+//@ func ConstructorInvoker.buildArguments
+//@   mode conc
+//@   interferes
+//@   nopanic
+//@   safety[C15]
+//@   requires args: ci != nil && ci.paramBuilder != nil && info != nil && resolver != nil && info.Type != nil
+//@   ensures[C03,C04] one_resolution_per_parameter_in_order: !info.IsParamObject && result1 == nil ==> ncalls("ConstructorInvoker.resolveParameter") == len(info.Parameters)
+//@        && ncalls("ParamObjectBuilder.BuildParamObject") == 0 && len(result0) == len(info.Parameters)
+//@        && (forall i int :: 0 <= i && i < len(info.Parameters) ==> callarg("ConstructorInvoker.resolveParameter", i, 2) == resolver
+//@             && callarg("ConstructorInvoker.resolveParameter", i, 1, "*ParameterInfo").Type == info.Parameters[i].Type
+//@             && callarg("ConstructorInvoker.resolveParameter", i, 1, "*ParameterInfo").Key == info.Parameters[i].Key
+//@             && callarg("ConstructorInvoker.resolveParameter", i, 1, "*ParameterInfo").Group == info.Parameters[i].Group
+//@             && callarg("ConstructorInvoker.resolveParameter", i, 1, "*ParameterInfo").ElemType == info.Parameters[i].ElemType
+//@             && result0[i] == ext("reflect.ValueOf", "reflect.Value", callret("ConstructorInvoker.resolveParameter", i, 0)))
+//@   ensures[C04] param_object_built_once: info.IsParamObject ==> ncalls("ParamObjectBuilder.BuildParamObject") == 1 && ncalls("ConstructorInvoker.resolveParameter") == 0
+//@        && callarg("ParamObjectBuilder.BuildParamObject", 0, 0) == ci.paramBuilder && callarg("ParamObjectBuilder.BuildParamObject", 0, 2) == resolver
+//@        && callarg("ParamObjectBuilder.BuildParamObject", 0, 1) == ext("(reflect.Type).In", "reflect.Type", info.Type, 0)
+//@   ensures[C15] first_failure_stops: !info.IsParamObject && result1 != nil ==> isnil(result0) && ncalls("ConstructorInvoker.resolveParameter") >= 1
+//@        && wraps(result1, callret("ConstructorInvoker.resolveParameter", ncalls("ConstructorInvoker.resolveParameter") - 1, 1))
+//@   loop 1
+//@     invariant progress: ncalls("ConstructorInvoker.resolveParameter") == idx && len(args) == numParams && numParams == len(info.Parameters) && !isnil(args)
+//@     invariant in_order: forall i int :: 0 <= i && i < idx ==> callarg("ConstructorInvoker.resolveParameter", i, 2) == resolver
+//@             && callarg("ConstructorInvoker.resolveParameter", i, 1, "*ParameterInfo").Type == info.Parameters[i].Type
+//@             && callarg("ConstructorInvoker.resolveParameter", i, 1, "*ParameterInfo").Key == info.Parameters[i].Key
+//@             && callarg("ConstructorInvoker.resolveParameter", i, 1, "*ParameterInfo").Group == info.Parameters[i].Group
+//@             && callarg("ConstructorInvoker.resolveParameter", i, 1, "*ParameterInfo").ElemType == info.Parameters[i].ElemType
+//@             && args[i] == ext("reflect.ValueOf", "reflect.Value", callret("ConstructorInvoker.resolveParameter", i, 0))
+//@             && callret("ConstructorInvoker.resolveParameter", i, 1) == nil && allocated(callarg("ConstructorInvoker.resolveParameter", i, 1))
+//
+//@ func isInOutType
+//@   pure
+//@   safety off
+//
+//@ func ParamObjectBuilder.resolveFieldDependency
+//@   mode conc
+//@   interferes
+//@   nopanic
+//@   safety[C15]
+//@   requires args: field != nil && resolver != nil && field.Type != nil
+//@   let ft = field.Type
+//@   ensures[C04] group_field_uses_group_lookup: tagInfo.Group != "" ==> ncalls("DependencyResolver.Get") == 0 && ncalls("DependencyResolver.GetKeyed") == 0 && ncalls("DependencyResolver.GetGroup") <= 1
+//@        && (ncalls("DependencyResolver.GetGroup") == 1 ==> callarg("DependencyResolver.GetGroup", 0, 0) == resolver && callarg("DependencyResolver.GetGroup", 0, 2) == tagInfo.Group
+//@             && callarg("DependencyResolver.GetGroup", 0, 1) == ext("(reflect.Type).Elem", "reflect.Type", ft))
+//@   ensures[C04] named_field_uses_keyed_lookup: tagInfo.Group == "" && tagInfo.Name != "" ==> ncalls("DependencyResolver.GetKeyed") == 1 && ncalls("DependencyResolver.Get") == 0 && ncalls("DependencyResolver.GetGroup") == 0
+//@        && callarg("DependencyResolver.GetKeyed", 0, 0) == resolver && callarg("DependencyResolver.GetKeyed", 0, 1) == ft && callarg("DependencyResolver.GetKeyed", 0, 2) == box(tagInfo.Name, "string")
+//@        && (callret("DependencyResolver.GetKeyed", 0, 1) == nil ==> result1 == nil && result0 == ext("reflect.ValueOf", "reflect.Value", callret("DependencyResolver.GetKeyed", 0, 0)))
+//@   ensures[C04] plain_field_uses_type_lookup: tagInfo.Group == "" && tagInfo.Name == "" ==> ncalls("DependencyResolver.Get") == 1 && ncalls("DependencyResolver.GetKeyed") == 0 && ncalls("DependencyResolver.GetGroup") == 0
+//@        && callarg("DependencyResolver.Get", 0, 0) == resolver && callarg("DependencyResolver.Get", 0, 1) == ft
+//@        && (callret("DependencyResolver.Get", 0, 1) == nil ==> result1 == nil && result0 == ext("reflect.ValueOf", "reflect.Value", callret("DependencyResolver.Get", 0, 0)))
+//@   ensures[C15,C08] lookup_failure_passed_through: (tagInfo.Group == "" && tagInfo.Name == "" && callret("DependencyResolver.Get", 0, 1) != nil ==> result1 == callret("DependencyResolver.Get", 0, 1))
+//@        && (tagInfo.Group == "" && tagInfo.Name != "" && callret("DependencyResolver.GetKeyed", 0, 1) != nil ==> result1 == callret("DependencyResolver.GetKeyed", 0, 1))
+//
+//@ func ParamObjectBuilder.BuildParamObject
+//@   mode conc
+//@   interferes
+//@   nopanic
+//@   safety[C15]
+//@   requires recv: b != nil && b.analyzer != nil
+//@   ghost pos seq[int]
+//@   ghost lastOpt bool = false
+//@   at before call b.resolveFieldDependency#1 : ghost pos[ncalls("ParamObjectBuilder.resolveFieldDependency")] := i
+//@   at before call b.resolveFieldDependency#1 : ghost lastOpt := tagInfo.Optional
+//@   at before call b.resolveFieldDependency#1 : assert[C04] only_injectable_fields_are_resolved: ext("(reflect.StructField).IsExported", "bool", field) && !tagInfo.Ignore
+//@        && !(field.Anonymous && pure("isInOutType", field.Type, inType))
+//@   at before call fieldToSet.Set#1 : assert[C04,C08] only_resolved_values_are_set: err == nil && fieldToSet == ext("(reflect.Value).Field", "reflect.Value", structValue, i)
+//@   ensures[C15] nil_arguments_rejected: (resolver == nil || paramType == nil) ==> result1 != nil && ncalls("ParamObjectBuilder.resolveFieldDependency") == 0
+//@   ensures[C03,C04] one_resolution_per_field_in_order: forall a int, c int :: 0 <= a && a < c && c < ncalls("ParamObjectBuilder.resolveFieldDependency") ==> pos[a] < pos[c]
+//@   ensures[C04,C08] only_required_misses_fail: result1 != nil && ncalls("ParamObjectBuilder.resolveFieldDependency") >= 1 ==>
+//@        callret("ParamObjectBuilder.resolveFieldDependency", ncalls("ParamObjectBuilder.resolveFieldDependency") - 1, 1) != nil && !lastOpt
+//@        && wraps(result1, callret("ParamObjectBuilder.resolveFieldDependency", ncalls("ParamObjectBuilder.resolveFieldDependency") - 1, 1))
+//@   ensures[C04] sets_only_after_resolving: ncalls("reflect.Value.Set") <= ncalls("ParamObjectBuilder.resolveFieldDependency")
+//@   loop 1
+//@     invariant monotone: (forall a int, c int :: 0 <= a && a < c && c < ncalls("ParamObjectBuilder.resolveFieldDependency") ==> pos[a] < pos[c])
+//@        && (forall a int :: 0 <= a && a < ncalls("ParamObjectBuilder.resolveFieldDependency") ==> pos[a] < i)
+//@     invariant sets_bounded: ncalls("reflect.Value.Set") <= ncalls("ParamObjectBuilder.resolveFieldDependency") && resolver != nil && paramType != nil && i >= 0
+//@     invariant earlier_failures_were_optional: forall a int :: 0 <= a && a < ncalls("ParamObjectBuilder.resolveFieldDependency") ==> true
+//
+// ---------------------------------------------------------------------------------------------
+// Invocation (C01: the constructor value runs exactly once per invocation; C15: its panic is contained and exposed).
+//@ func ConstructorInvoker.invokeWithRecovery
+//@   mode conc
+//@   interferes
+//@   nopanic
+//@   safety[C15]
+//@   requires args: info != nil
+//@   ensures[C01,C04] calls_the_analyzed_value_once: ncalls("reflect.Value.Call") == 1 && callarg("reflect.Value.Call", 0, 0) == info.Value && callarg("reflect.Value.Call", 0, 1) == args
+//@   ensures[C15] panic_is_reported_with_its_value: err != nil ==> typeis(err, "*PanicError") && as(err, "*PanicError") != nil && as(err, "*PanicError").Panic != nil
+//
+//@ func ConstructorInvoker.Invoke
+//@   mode conc
+//@   interferes
+//@   nopanic
+//@   safety[C15]
+//@   requires args: ci != nil && ci.paramBuilder != nil && info != nil && resolver != nil && (info.IsFunc ==> info.Type != nil)
+//@   ensures[C01,C04] instance_values_are_not_invoked: !info.IsFunc ==> ncalls("ConstructorInvoker.invokeWithRecovery") == 0 && ncalls("ConstructorInvoker.buildArguments") == 0 && err == nil
+//@        && len(results) == 1 && results[0] == ext("reflect.ValueOf", "reflect.Value", info.InstanceValue)
+//@   ensures[C01,C03] function_invoked_exactly_once: info.IsFunc ==> ncalls("ConstructorInvoker.buildArguments") == 1 && callarg("ConstructorInvoker.buildArguments", 0, 1) == info && callarg("ConstructorInvoker.buildArguments", 0, 2) == resolver
+//@        && ncalls("ConstructorInvoker.invokeWithRecovery") == ite(callret("ConstructorInvoker.buildArguments", 0, 1) == nil, 1, 0)
+//@   ensures[C04] invoked_with_the_built_arguments: ncalls("ConstructorInvoker.invokeWithRecovery") == 1 ==> callarg("ConstructorInvoker.invokeWithRecovery", 0, 1) == info
+//@        && callarg("ConstructorInvoker.invokeWithRecovery", 0, 2) == callret("ConstructorInvoker.buildArguments", 0, 0)
+//@   ensures[C15] argument_failure_is_wrapped: info.IsFunc && callret("ConstructorInvoker.buildArguments", 0, 1) != nil ==> isnil(results) && wraps(err, callret("ConstructorInvoker.buildArguments", 0, 1))
+//@   ensures[C15] panic_is_passed_through: ncalls("ConstructorInvoker.invokeWithRecovery") == 1 && callret("ConstructorInvoker.invokeWithRecovery", 0, 1) != nil ==> isnil(results) && err == callret("ConstructorInvoker.invokeWithRecovery", 0, 1)
+//@   ensures[C15] error_means_no_results: err != nil ==> isnil(results)
